@@ -469,6 +469,97 @@ class _TileStage(StageHarness):
         return viol, obs
 
 
+class LeafWrites(StageHarness):
+    """C15 across processes: the workers of one visit_leaves call each store the tile of their position; the tiles
+    named in `masked` are entirely undefined (so nothing is stored for them, and an earlier file goes).  At the end
+    every other tile is stored with the pixels its worker wrote.  File creation is a scheduling point of its own."""
+
+    stage = "leaf_writes"
+    io_points = True
+    create_points = True
+    depth = 1
+    masked = ((1, 1, 0),)
+    scheme = "L/Y/YX"
+    fmt = "png"
+    stale = ()
+
+    def expected_items(self):
+        if self._expected is None:
+            n = self.depth
+            m = set(tuple(t) for t in self.masked)
+            self._expected = [(n, x, y) for y in range(2**n) for x in range(2**n) if (n, x, y) not in m]
+        return self._expected
+
+    def cleanup(self, root):
+        if root:
+            shutil.rmtree(root, ignore_errors=True)
+
+    @staticmethod
+    def _pixels(pos, masked):
+        a = np.zeros((256, 256, 4), dtype=np.uint8)
+        if not masked:
+            a[..., 0] = 10 + 40 * pos[1] + 7 * pos[2]
+            a[..., 1] = (np.arange(256) % 200)[None, :]
+            a[..., 3] = 255
+            a[:9, :, 3] = 0
+        return a
+
+    def fresh(self):
+        from toasty.image import Image
+        from toasty.pyramid import Pyramid, PyramidIO, Pos
+
+        root = tempfile.mkdtemp(prefix="verif-lw-", dir=scratch_root())
+        pio = PyramidIO(root, scheme=self.scheme, default_format=self.fmt)
+        m = set(tuple(t) for t in self.masked)
+        for t in self.stale:
+            # a tile left by an earlier run at a position that is entirely undefined this time
+            Image.from_array(self._pixels((2, 3, 1), False)).save(pio.tile_path(Pos(*t)), format=self.fmt)
+        pyr = Pyramid.new_generic(self.depth)
+        mon = DeliveryMonitor()
+        h = self
+
+        def fn(mon, pos, tile):
+            key = tuple(pos)
+            pio.write_image(pos, Image.from_array(h._pixels(key, key in m)))
+
+        cb = Recorder(mon, fn)
+        W = self.W
+
+        def main():
+            pyr.visit_leaves(cb, parallel=W)
+
+        return self.with_foreign_child(main), mon, root
+
+    def at_terminal(self, sched, mon):
+        from toasty.pyramid import PyramidIO, Pos
+
+        pio = PyramidIO(sched.root, scheme=self.scheme, default_format=self.fmt)
+        m = set(tuple(t) for t in self.masked)
+        extra = []
+        n = self.depth
+        for y in range(2**n):
+            for x in range(2**n):
+                key = (n, x, y)
+                p = pio.tile_path(Pos(*key), makedirs=False)
+                if key in m:
+                    if os.path.exists(p):
+                        extra.append(("all-undefined-tile-stored", "a file exists at %r, whose tile was written entirely undefined" % (key,)))
+                    continue
+                if not os.path.exists(p):
+                    continue  # reported as items-lost below
+                try:
+                    got = np.asarray(pio.read_image(Pos(*key)).asarray())
+                except Exception as e:
+                    extra.append(("stored-tile-unreadable", "%r: %r" % (key, e)))
+                    continue
+                if got.shape != (256, 256, 4) or not np.array_equal(got, self._pixels(key, False)):
+                    extra.append(("readback-differs", "tile %r does not hold the pixels its worker wrote" % (key,)))
+                else:
+                    mon.delivered[key] = 1
+        viol, obs = StageHarness.at_terminal(self, sched, mon)
+        return viol + extra, obs
+
+
 def _walk_files(root):
     out = []
     for d, _dirs, files in os.walk(root):
@@ -689,7 +780,7 @@ def register(cls):
     return cls
 
 
-for _c in (VisitLeaves, Walk, WalkTwice, Transform, MultiTan, MultiWcs):
+for _c in (VisitLeaves, Walk, WalkTwice, Transform, MultiTan, MultiWcs, LeafWrites):
     register(_c)
 
 
